@@ -128,6 +128,8 @@ pub enum K {
     Await { a: usize, mo: MO, want: u64 },
     /// the same loop; the result tells whether it had to spin (1) or exited at once (0)
     AwaitSpun { a: usize, mo: MO, want: u64 },
+    /// `while !(a.load(mo) == wa && b.load(mo) == wb) { yield_now() }`: two loads per iteration
+    Await2 { a: usize, b: usize, mo: MO, wa: u64, wb: u64 },
     // ---- cells
     CellRead { c: usize },
     CellWrite { c: usize },
@@ -396,7 +398,7 @@ impl Program {
 
     pub fn has_sc_access(&self) -> bool {
         self.threads.iter().flatten().any(|op| match &op.k {
-            K::Load { mo, .. } | K::Store { mo, .. } | K::Swap { mo, .. } | K::FetchAdd { mo, .. } | K::Await { mo, .. } | K::AwaitSpun { mo, .. } => *mo == MO::Sc,
+            K::Load { mo, .. } | K::Store { mo, .. } | K::Swap { mo, .. } | K::FetchAdd { mo, .. } | K::Await { mo, .. } | K::AwaitSpun { mo, .. } | K::Await2 { mo, .. } => *mo == MO::Sc,
             K::Cas { s, f, .. } => *s == MO::Sc || *f == MO::Sc,
             _ => false,
         })
@@ -424,6 +426,7 @@ pub fn op_text(op: &Op) -> String {
         K::WithMut { a } => write!(s, "with_mut a{}", a),
         K::Await { a, mo, want } => write!(s, "await a{}=={}.{}", a, want, mo.short()),
         K::AwaitSpun { a, mo, want } => write!(s, "await_spun a{}=={}.{}", a, want, mo.short()),
+        K::Await2 { a, b, mo, wa, wb } => write!(s, "await a{}=={}&&a{}=={}.{}", a, wa, b, wb, mo.short()),
         K::CellRead { c } => write!(s, "rd c{}", c),
         K::CellWrite { c } => write!(s, "wr c{}", c),
         K::CellBegin { c, w } => write!(s, "{} c{}", if *w { "get_mut" } else { "get" }, c),
@@ -612,7 +615,7 @@ fn emit_thread(s: &mut String, p: &Program, t: usize, ind: &str) {
     }
     for op in &p.threads[t] {
         let mut code = rust_op(t, &op.k);
-        if o.spin_hint && matches!(op.k, K::Await { .. } | K::AwaitSpun { .. }) {
+        if o.spin_hint && matches!(op.k, K::Await { .. } | K::AwaitSpun { .. } | K::Await2 { .. }) {
             code = code.replace("loom::thread::yield_now()", "loom::hint::spin_loop()");
         }
         match &op.g {
@@ -642,6 +645,7 @@ fn rust_op(t: usize, k: &K) -> String {
         K::Cas { a, exp, new, s, f } => format!("r.push(match a{}.compare_exchange({}, {}, {}, {}) {{ Ok(v) => format!(\"Ok{{}}\", v), Err(v) => format!(\"Err{{}}\", v) }});", a, exp, new, s.rust(), f.rust()),
         K::Fence { mo } => format!("fence({}); {}", mo.rust(), u),
         K::UnsyncLoad { a } => format!("let _ = unsafe {{ a{}.unsync_load() }}; {}", a, u),
+        K::Await2 { a, b, mo, wa, wb } => format!("while !(a{0}.load({2}) == {3} && a{1}.load({2}) == {4}) {{ loom::thread::yield_now(); }} {5}", a, b, mo.rust(), wa, wb, u),
         K::AwaitSpun { a, mo, want } => format!("{{ let mut spun = 0; loop {{ let v = a{}.load({}); if v == {} {{ r.push(spun.to_string()); break; }} spun = 1; loom::thread::yield_now(); }} }}", a, mo.rust(), want),
         K::Await { a, mo, want } => format!("loop {{ let v = a{}.load({}); if v == {} {{ r.push(v.to_string()); break; }} loom::thread::yield_now(); }}", a, mo.rust(), want),
         K::CellRead { c } => format!("c{}.with(|p| unsafe {{ std::ptr::read_volatile(p) }}); {}", c, u),
